@@ -144,7 +144,10 @@ fn push_index_records_for_multi_reference_slice(
             .entry(record.reference_sequence_id)
             .or_default();
 
-        range.start = cmp::min(range.start, record.alignment_start);
+        // A placed record may have no alignment start (`POS` = 0).
+        if let Some(alignment_start) = record.alignment_start {
+            range.start = cmp::min(range.start, Some(alignment_start));
+        }
 
         let alignment_end = record.alignment_end();
         range.end = cmp::max(range.end, alignment_end);
@@ -162,7 +165,7 @@ fn push_index_records_for_multi_reference_slice(
                 let span = usize::from(end) - usize::from(start) + 1;
                 (Some(start), span)
             } else {
-                todo!("unhandled interval: {:?}", range);
+                (None, 0)
             }
         } else {
             (None, 0)
